@@ -2,6 +2,7 @@
 #include "hist.hpp"
 #include "sched.hpp"
 #include <cmath>
+#include <cerrno>
 
 // C12 growth clause. "Geometric" = every growth step multiplies the capacity by a constant factor > 1, so n insertions cost
 // about log_factor(n) reallocations. The budget is computed for the factor the build is configured with (CBOR_BUFFER_GROWTH);
@@ -27,11 +28,23 @@ static const int POOL_MAX = 32, NODES_MAX = 400;
 static const uint64_t TREE_BYTES_MAX = (uint64_t)4 << 20;
 
 // --- describe sink: every write is a scheduling point (W4) and lands nowhere
-static ssize_t sink_write(void* c, const char* buf, size_t n) { sched_point(SP_FILE); uint64_t* h = (uint64_t*)c; *h = hash_bytes(buf, n, *h); return (ssize_t)n; }
-static uint64_t describe_to_sink(cbor_item_t* it) {
-  uint64_t h = 1; cookie_io_functions_t io = {nullptr, sink_write, nullptr, nullptr};
-  FILE* f = fopencookie(&h, "w", io); if (!f) return 0;
-  cbor_describe(it, f); fclose(f); return h;
+// The stream is the client's: it may stop accepting bytes at any moment (disk full, reader gone). fail_after = ~0: never.
+struct Sink { uint64_t h = 1, total = 0, fail_after = ~0ull; uint64_t write_errors = 0; };
+static ssize_t sink_write(void* c, const char* buf, size_t n) {
+  sched_point(SP_FILE); Sink* s = (Sink*)c;
+  if (s->total >= s->fail_after) { s->write_errors++; errno = ENOSPC; return 0; }      // 0 from a cookie write function = error
+  size_t take = n; if (s->fail_after - s->total < take) take = (size_t)(s->fail_after - s->total);   // short write first, the error on the retry
+  s->h = hash_bytes(buf, take, s->h); s->total += take; return (ssize_t)take;
+}
+// bufmode: 0 = stdio's default buffering, 1 = unbuffered, 2.. = fully buffered with 16 << (bufmode - 2) bytes
+static uint64_t describe_to_sink(cbor_item_t* it, uint64_t fail_after = ~0ull, unsigned bufmode = 0, uint64_t* errors = nullptr) {
+  Sink sk; sk.fail_after = fail_after; cookie_io_functions_t io = {nullptr, sink_write, nullptr, nullptr};
+  FILE* f = fopencookie(&sk, "w", io); if (!f) return 0;
+  static thread_local char vbuf[4096];
+  if (bufmode == 1) setvbuf(f, nullptr, _IONBF, 0); else if (bufmode >= 2) setvbuf(f, vbuf, _IOFBF, (size_t)16 << std::min(bufmode - 2, 8u));
+  cbor_describe(it, f); fclose(f);
+  if (errors) *errors = sk.write_errors;
+  return sk.h;
 }
 
 int Hist::alive_nodes() const { int n = 0; for (auto& x : nodes) if (x.alive) n++; return n; }
@@ -287,6 +300,20 @@ static MV raw_shape(const HOp& op) {
     MV it; it.kind = MK_TSTR; it.definite = false; MV ch; ch.kind = MK_TSTR; ch.definite = true; gen_payload(op.c + 1, (size_t)(65537 + (op.c >> 16) % 3000), (op.c & 1) ? 2 : 3, ch.bytes); it.kids.push_back(ch); a.kids.push_back(it);
     MV b; b.kind = MK_BSTR; b.definite = true; gen_payload(op.c + 2, (size_t)(65536 + (op.c >> 8) % 9), 0, b.bytes); a.kids.push_back(b);
     return a;
+  }
+  if (op.d & 16) {
+    // the decoder's output as the starting state of a mutation history: an indefinite container (the kind that can still grow)
+    // holding a boundary number of one-byte members or small chunks; the generator follows it with insertions into it
+    static const unsigned NS[] = {0, 1, 2, 3, 4, 7, 8, 9, 15, 16, 17, 23, 24, 31, 32, 33, 56, 63, 64, 65, 120, 128, 129, 257};
+    unsigned n = NS[(op.c >> 8) % (sizeof NS / sizeof NS[0])]; unsigned kind = (unsigned)((op.c >> 3) % 4);
+    MV v; v.definite = false; v.kind = kind == 0 ? MK_ARRAY : kind == 1 ? MK_MAP : kind == 2 ? MK_BSTR : MK_TSTR;
+    for (unsigned i = 0; i < (kind == 1 ? 2 * n : n); i++) {
+      MV c;
+      if (kind >= 2) { c.kind = v.kind; c.definite = true; gen_payload(op.c + i, (size_t)((op.c >> 16) + i) % 5, kind == 2 ? 0 : 1, c.bytes); }
+      else { c.kind = MK_UINT; c.width = 1; c.val = i % 24; }
+      v.kids.push_back(std::move(c));
+    }
+    return v;
   }
   GenProfile gp; gp.max_depth = 3; gp.max_kids = 4; return gen_mv(r, gp);
 }
@@ -588,7 +615,8 @@ OpResult Hist::run_op(const HOp& op0) {
       if (op.code == OP_LOAD) { int xi = pick(M_ANY, op.a, true); if (xi < 0) break; if (!small_enough(pool[xi], TREE_BYTES_MAX, 3000)) break; shape = to_value(pool[xi]); }
       else shape = raw_shape(op);
       if (ref_depth(shape) > impl_max_stack()) break;
-      std::vector<uint8_t> by = ref_encode(shape);
+      std::vector<uint8_t> by;
+      if (op.code == OP_LOAD_RAW && (op.d & 1)) { Rng wr(op.c, "wire"); gen_encode(wr, shape, by); } else by = ref_encode(shape);   // what arrives need not be in preferred form
       unsigned char* buf = (unsigned char*)malloc(by.size()); memcpy(buf, by.data(), by.size());
       struct cbor_load_result res; memset(&res, 0xA5, sizeof res);
       OpScope S(*this, op, "C03"); S.begin(op);
@@ -658,8 +686,14 @@ OpResult Hist::run_op(const HOp& op0) {
     case OP_DESCRIBE: {
       int xi = pick(M_ANY, op.a, true); if (xi < 0) break;
       if (!afford(pool[xi], TREE_BYTES_MAX, 20000)) break;
-      OpScope S(*this, op, "C04"); S.begin(op); uint64_t dh = describe_to_sink(nodes[pool[xi]].impl); S.end(); R.executed = true; S.account();
-      g_log.ev("describe-text", dh);
+      // a third of the describes write to a stream that stops accepting bytes part-way (after op.b bytes, through a buffer of a seeded size)
+      uint64_t fail_after = (op.d % 3 == 1) ? op.b % 600 : ~0ull; unsigned bufmode = (unsigned)(op.d / 3 % 7); uint64_t werr = 0;
+      OpScope S(*this, op, "C04,C06"); S.begin(op); uint64_t dh = describe_to_sink(nodes[pool[xi]].impl, fail_after, bufmode, &werr); S.end(); R.executed = true;
+      R.requests = S.w.requests; R.refused = S.refused; R.reported_failure = true;      // void: nothing to report through; it must simply leave everything as it was
+      S.account();
+      if (S.w.refused > 0) S.unchanged_after_refusal();
+      if (werr) stat_add("describe_stream_write_errors_injected");
+      g_log.ev("describe-text", dh, werr);
       break;
     }
     // ------------------------------------------------------------ references
@@ -760,15 +794,19 @@ OpResult Hist::run_op(const HOp& op0) {
         cbor_item_t* e = variant == 2 ? cbor_build_bytestring((const unsigned char*)"x", 1) : cbor_build_uint8(7);
         if (c && e) {
           sa_begin(FaultSpec()); uint64_t done = 0; bool ok = true;
-          for (uint64_t i = 0; i < n && ok; i++) {
+          bool over = false;
+          for (uint64_t i = 0; i < n && ok && !over; i++) {
             if (variant == 0) ok = cbor_array_push(c, e);
             else if (variant == 1) { struct cbor_pair pr; pr.key = e; pr.value = e; ok = cbor_map_add(c, pr); }
             else ok = cbor_bytestring_add_chunk(c, e);
             if (ok) done++;
+            // a growth policy that is not geometric makes this loop quadratic: stop as soon as the budget for the whole marathon is spent
+            if ((i & 1023) == 1023 && sa_window().reallocs > growth_budget(n, sa_window().min_growth)) over = true;
           }
           OpWindow w = sa_end(); R.executed = true; R.requests = w.requests;
           uint64_t budget = growth_budget(n, w.min_growth);
-          if (!ok || done != n) fail("C12", "insert-refused-wrongly", S.ctx + fmt(": insertion %llu of %llu into an indefinite container was refused although no allocation was", (unsigned long long)done, (unsigned long long)n));
+          if (over) fail("C12", "growth-not-geometric", S.ctx + fmt(": %llu reallocations after only %llu of %llu insertions (budget for all of them: %llu)", (unsigned long long)w.reallocs, (unsigned long long)done, (unsigned long long)n, (unsigned long long)budget));
+          else if (!ok || done != n) fail("C12", "insert-refused-wrongly", S.ctx + fmt(": insertion %llu of %llu into an indefinite container was refused although no allocation was", (unsigned long long)done, (unsigned long long)n));
           else if (w.reallocs > budget) fail("C12", "growth-not-geometric", S.ctx + fmt(": %llu reallocations for %llu insertions (budget %llu)", (unsigned long long)w.reallocs, (unsigned long long)n, (unsigned long long)budget));
           else {
             size_t sz = variant == 0 ? cbor_array_size(c) : variant == 1 ? cbor_map_size(c) : cbor_bytestring_chunk_count(c);
@@ -791,9 +829,13 @@ OpResult Hist::run_op(const HOp& op0) {
         if (shape >= 2) by.push_back(0xff);
         unsigned char* buf = (unsigned char*)malloc(by.size()); memcpy(buf, by.data(), by.size());
         struct cbor_load_result res; memset(&res, 0xA5, sizeof res);
-        sa_begin(FaultSpec()); cbor_item_t* it = cbor_load(buf, by.size(), &res); sa_end(); R.executed = true;
+        // an indefinite container's table is grown step by step while it is decoded; a policy that is not geometric would keep this call
+        // busy for hours, so resizes beyond (generously) four times the budget are refused and the growth clause is reported instead
+        uint64_t rbudget = growth_budget(members, 1e9); sa_set_realloc_limit(4 * rbudget + 64);
+        sa_begin(FaultSpec()); cbor_item_t* it = cbor_load(buf, by.size(), &res); OpWindow lw = sa_end(); R.executed = true; sa_set_realloc_limit(0);
         memset(buf, 0x5A, by.size()); free(buf);
-        if (!it) fail("C03", "own-encoding-rejected", S.ctx + fmt(": cbor_load rejected a well-formed %s of %llu members (code %d at %zu)", shape % 2 ? "map" : "array", (unsigned long long)n, (int)res.error.code, res.error.position));
+        if (!it && lw.reallocs >= 4 * rbudget + 64) fail("C12", "growth-not-geometric", S.ctx + fmt(": decoding a %llu-member container made %llu reallocations (budget %llu) before the harness stopped granting them", (unsigned long long)n, (unsigned long long)lw.reallocs, (unsigned long long)rbudget));
+        else if (!it) fail("C03", "own-encoding-rejected", S.ctx + fmt(": cbor_load rejected a well-formed %s of %llu members (code %d at %zu)", shape % 2 ? "map" : "array", (unsigned long long)n, (int)res.error.code, res.error.position));
         else {
           size_t sz = shape % 2 ? (cbor_isa_map(it) ? cbor_map_size(it) : 0) : (cbor_isa_array(it) ? cbor_array_size(it) : 0);
           if (res.read != by.size() || sz != n) fail("C03", "roundtrip-tree-differs", S.ctx + fmt(": %s of %llu members decoded with read=%zu of %zu, size %zu", shape % 2 ? "map" : "array", (unsigned long long)n, res.read, by.size(), sz));
